@@ -165,6 +165,22 @@ def fieldLength (doc : List AField) (name : String) : Nat :=
 def termFreq (doc : List AField) (name term : String) : Nat :=
   ((doc.filter (·.name == name)).map (·.tokens.count term)).sum
 
+/-! ## the per-term boost of a fuzzy query
+
+search/searcher/search_fuzzy.go `boostFromDistance`: `return 1.0 - (float64(termEditDistance) / float64(minTermLen))` where
+`termEditDistance` is the edit distance between the query term and the dictionary term (found by probing the smaller
+Levenshtein automata) and `minTermLen` the smaller of their lengths in runes; the term searcher of that dictionary term is
+built with `boost * thatValue` (search_multi_term.go `makeBatchSearchers`), or `boost * 1.0` for the query term itself.
+The shape of these statements is re-extracted as `BlugeGen.C17.fuzzyFacts`. -/
+
+/-- `1.0 - (float64(termEditDistance) / float64(minTermLen))` -/
+def boostFromDistance {α : Type} [ScoreField α] (dist minLen : Nat) : α :=
+  ScoreField.lit 1 0 - ScoreField.ofNat dist / ScoreField.ofNat minLen
+
+/-- the boost handed to the term searcher of a dictionary term at distance `dist` from a query term of `searchLen` runes -/
+def fuzzyTermBoost {α : Type} [ScoreField α] (boost : α) (dist searchLen termLen : Nat) : α :=
+  boost * (if dist == 0 then ScoreField.lit 1 0 else boostFromDistance dist (min searchLen termLen))
+
 /-! ## `Float` instance (IEEE-754 binary64, the driver's number type) -/
 
 /-- float64(n) for n < 2^64 is the correctly rounded conversion (C cast), as in Go -/
